@@ -17,6 +17,12 @@ pub enum Policy {
     Random { preempt_permille: u64 },
     /// PCT-like: strict priorities with `depth` priority-drop points at the given global steps.
     Pct { change_points: Vec<u64> },
+    /// No baton at all: the simulated threads run truly concurrently on the OS scheduler.
+    /// NOT deterministic and not replayable - a supplementary mode for windows of a few
+    /// machine instructions that contain neither a hook nor an allocation (e.g. two adjacent
+    /// atomic stores); a divergence found this way is still two different outcomes for equal
+    /// inputs, reported with `replay_exact: false`.
+    Free,
 }
 
 #[derive(Debug, Clone, Serialize, Deserialize, PartialEq, Eq)]
@@ -61,6 +67,9 @@ pub struct Sched {
     state: Mutex<State>,
     cv: Condvar,
     n: usize,
+    /// `Policy::Free`: scheduling points must not synchronise the threads in any way
+    free: bool,
+    free_steps: std::sync::atomic::AtomicU64,
 }
 
 #[derive(Debug, Clone, Default)]
@@ -123,6 +132,8 @@ impl Sched {
             }),
             cv: Condvar::new(),
             n,
+            free: plan.policy == Policy::Free,
+            free_steps: std::sync::atomic::AtomicU64::new(0),
         }
     }
 
@@ -161,6 +172,7 @@ impl Sched {
                 }
                 runnable.iter().copied().max_by_key(|t| state.priorities[*t])
             }
+            Policy::Free => me.or_else(|| runnable.first().copied()),
         }
     }
 
@@ -170,6 +182,21 @@ impl Sched {
         let mut s = self.lock();
         s.os_tids[tid] = unsafe { libc::syscall(libc::SYS_gettid) } as i32;
         s.started += 1;
+        if s.policy == Policy::Free {
+            // start together, then never wait again
+            if s.started == self.n {
+                s.current = Some(tid);
+                self.cv.notify_all();
+            }
+            while s.started < self.n && s.abort.is_none() {
+                let (guard, _) = self
+                    .cv
+                    .wait_timeout(s, Duration::from_millis(50))
+                    .unwrap_or_else(|e| e.into_inner());
+                s = guard;
+            }
+            return;
+        }
         if s.started == self.n {
             let first = Self::pick(&mut s, None);
             s.current = first;
@@ -232,6 +259,9 @@ impl Sched {
     }
 
     pub fn set_in_call(&self, tid: usize, v: bool) {
+        if self.free {
+            return;
+        }
         let _quiet = crate::seams::AllocPointsSuspended::new();
         self.lock().in_call[tid] = v;
     }
@@ -250,11 +280,34 @@ impl Sched {
     }
 
     fn point_inner(&self, tid: usize, site: &'static str, may_crash: bool) {
+        if self.free {
+            self.free_steps.fetch_add(1, std::sync::atomic::Ordering::Relaxed);
+            return;
+        }
         let _quiet = crate::seams::AllocPointsSuspended::new();
         let mut s = self.lock();
         if s.abort.is_some() {
             drop(s);
             std::panic::panic_any(Sentinel::Abort);
+        }
+        if s.policy == Policy::Free {
+            s.step += 1;
+            s.per_thread[tid] += 1;
+            if s.step > s.step_cap {
+                s.abort = Some("step_cap");
+                drop(s);
+                std::panic::panic_any(Sentinel::Abort);
+            }
+            let k = s.per_thread[tid];
+            if s.in_call[tid] && may_crash {
+                if let Some(pos) = s.crash_points.iter().position(|(t, n)| *t == tid && *n == k) {
+                    s.crash_points.remove(pos);
+                    s.crashes_fired += 1;
+                    drop(s);
+                    std::panic::panic_any(Sentinel::Crash);
+                }
+            }
+            return;
         }
         if s.current != Some(tid) {
             // The baton was taken away while this thread was blocked outside the seams.
@@ -314,7 +367,7 @@ impl Sched {
     pub fn report(&self) -> SchedReport {
         let s = self.lock();
         SchedReport {
-            steps: s.step,
+            steps: s.step + self.free_steps.load(std::sync::atomic::Ordering::Relaxed),
             switches: s.switches,
             switches_inside_call: s.switches_inside_call,
             crashes_fired: s.crashes_fired,
